@@ -44,6 +44,7 @@ class Check:
         self.violations = []
         self.known_hits = {}
         self.undecided = []
+        self.open = []            # obligations left open by an engine limit (time/state); reported, never decide the exit code
         self.broken = []
         self.notes = []
         self.extra = {}
@@ -124,6 +125,9 @@ class Check:
     def undecide(self, name, why):
         self.undecided.append(dict(name=name, why=str(why)[:300]))
 
+    def leave_open(self, name, why):
+        self.open.append(dict(name=name, why=str(why)[:300]))
+
     def broke(self, why):
         self.broken.append(str(why)[:2000])
 
@@ -158,6 +162,7 @@ class Check:
             trusted_base=trusted_base or [],
             known_findings_met={k: dict(count=v['count'], what=v['what']) for k, v in self.known_hits.items()},
             undecided=self.undecided[:40], undecided_count=len(self.undecided),
+            open_obligations=self.open[:40], open_count=len(self.open),
             violations_detail=[v for v in self.violations if v][:25],
             notes=self.notes,
         )
@@ -185,7 +190,7 @@ class Check:
         else:
             code = 0
         print(f'{self.pid} [{self.tier}] exit={code} obligations={nobl} proved={proved} cases={self.evaluations} '
-              f'violations={nviol} known={sum(v["count"] for v in self.known_hits.values())} undecided={len(self.undecided)} '
+              f'violations={nviol} known={sum(v["count"] for v in self.known_hits.values())} undecided={len(self.undecided)} open={len(self.open)} '
               f'wall={ev["wall_s"]}s')
         return code
 
